@@ -1,4 +1,5 @@
 CONSTANTS
+  OldResetHandling = FALSE
   Alphabet = {16, 42, 198, 170, 133, 200, 232, 204, 192, 129, 236, 212}
   MaxLen = 5
   Distinct = TRUE
